@@ -146,7 +146,10 @@ type EDrive struct {
 	Op   int
 	Arg  Expr
 }
-type EAwait struct{ E Expr }
+type EAwait struct {
+	E      Expr
+	Tamper bool // the awaited promise has its 'constructor' property replaced: Await must wrap it in a new promise
+}
 type EAsyncStart struct { // call an async function; the value is its promise (only used as the operand of await)
 	Fn   string
 	Args []Expr
@@ -181,6 +184,7 @@ type Program struct {
 
 const ctlHelpers = `
 function N(v) { return typeof v === 'number' ? v : -1; }
+function TP(p) { p.constructor = Object; return p; }
 function mkIt(s, n, fl) {
   var i = 0;
   var it = {
@@ -486,6 +490,9 @@ func exprJS(e Expr) string {
 		op := [...]string{"next", "throw", "return"}[e.Op]
 		return fmt.Sprintf("R(%d, %s.%s(%s))", e.Site, e.Gen, op, exprJS(e.Arg))
 	case *EAwait:
+		if e.Tamper {
+			return fmt.Sprintf("N(await TP(%s))", exprJS(e.E))
+		}
 		return fmt.Sprintf("N(await %s)", exprJS(e.E))
 	case *EAsyncStart:
 		return fmt.Sprintf("%s(%s)", e.Fn, exprsJS(e.Args))
